@@ -10,7 +10,7 @@ from scoda.misc.music_theory import CircleOfFifths
 from scoda.misc.scoda_logging import get_logger
 from scoda.misc.util import get_default_step_sizes, get_default_note_values, get_velocity_bins, bin_velocity
 from scoda.sequences.sequence import Sequence
-from scoda.settings.settings import PPQN, DEFAULT_TIME_SIGNATURE_NUMERATOR, DEFAULT_TIME_SIGNATURE_DENOMINATOR
+from scoda.settings.settings import PPQN, DEFAULT_TIME_SIGNATURE_NUMERATOR, DEFAULT_TIME_SIGNATURE_DENOMINATOR, VELOCITY_MAX
 
 LOGGER = get_logger(__name__)
 
@@ -60,6 +60,9 @@ class MultiTrackLargeVocabularyNotelikeTokeniser:
         self.note_values.sort()
 
         self.velocity_bins = [int(velocity_bin) for velocity_bin in get_velocity_bins(velocity_bins=velocity_bins)]
+        # The last bin always reaches the maximum velocity, bins capped at the same value are only kept once
+        self.velocity_bins[-1] = VELOCITY_MAX
+        self.velocity_bins = sorted(set(self.velocity_bins))
 
         # Memory
         self.cur_time = None
